@@ -37,15 +37,35 @@ func (prs *peerLinkTracker) getLinkTracker(requestID graphsync.RequestID) *linkt
 }
 
 // DedupKey indicates that outgoing blocks should be deduplicated in a seperate bucket (only with requests that share
-// supplied key string)
+// supplied key string). A request that already recorded traversals takes them along into its new bucket.
 func (prs *peerLinkTracker) DedupKey(requestID graphsync.RequestID, key string) {
 	prs.linkTrackerLk.Lock()
 	defer prs.linkTrackerLk.Unlock()
-	prs.dedupKeys[requestID] = key
-	_, ok := prs.altTrackers[key]
-	if !ok {
-		prs.altTrackers[key] = linktracker.New()
+	oldKey, hadKey := prs.dedupKeys[requestID]
+	if hadKey && oldKey == key {
+		return
 	}
+	oldTracker := prs.getLinkTracker(requestID)
+	prs.dedupKeys[requestID] = key
+	newTracker, ok := prs.altTrackers[key]
+	if !ok {
+		newTracker = linktracker.New()
+		prs.altTrackers[key] = newTracker
+	}
+	oldTracker.MoveRequest(requestID, newTracker)
+	if hadKey {
+		prs.dropTrackerIfUnused(oldKey)
+	}
+}
+
+// dropTrackerIfUnused removes the bucket for a dedup key no request refers to any more
+func (prs *peerLinkTracker) dropTrackerIfUnused(key string) {
+	for _, otherKey := range prs.dedupKeys {
+		if otherKey == key {
+			return
+		}
+	}
+	delete(prs.altTrackers, key)
 }
 
 // IgnoreBlocks indicates that a list of keys should be ignored when sending blocks
@@ -73,16 +93,7 @@ func (prs *peerLinkTracker) FinishTracking(requestID graphsync.RequestID) bool {
 	key, ok := prs.dedupKeys[requestID]
 	if ok {
 		delete(prs.dedupKeys, requestID)
-		var otherRequestsFound bool
-		for _, otherKey := range prs.dedupKeys {
-			if otherKey == key {
-				otherRequestsFound = true
-				break
-			}
-		}
-		if !otherRequestsFound {
-			delete(prs.altTrackers, key)
-		}
+		prs.dropTrackerIfUnused(key)
 	}
 	delete(prs.blockSentCount, requestID)
 	delete(prs.skipFirstBlocks, requestID)
